@@ -200,7 +200,7 @@ impl BDF {
             let mut f1 = vec![0.0; n];
             let mut y1 = vec![0.0; n];
             let guess = hinit(
-                f, x, &y, direction, &f0, &mut f1, &mut y1, 1, hmax, &atol, &rtol,
+                f, x, &y, direction, &f0, &mut f1, &mut y1, 1, hmax.min((xend - x).abs()), &atol, &rtol,
             );
             evals.ode += 1;
             // Ensure x + h isn't larger than xend
